@@ -15,6 +15,19 @@ TEMPLATES = [
     "type Shape\n    def area(fin self) -> Int\nclass Sq(def s: Int): Shape\n    def area(fin self) -> Int => self.s * self.s\ndef q := Sq(3)\nprint(q.area())\n",
     "def a: Any := 10\nprint(a)\n",
     "from math import floor\nimport os\ndef v := floor(2.5)\nprint(v)\n",
+    # the source imports, in its own way, the very module / name the generator needs: the support import is still required
+    "import math as m\ndef a: Float := sqrt 16.0\nprint(a)\n",
+    "def a: Float := sqrt 16.0\nprint(a)\nimport math\ndef b := 10\nprint(b)\n",
+    "import math\ndef a: Float := sqrt 16.0\nprint(a)\n",
+    "from math import floor\ndef a: Float := sqrt 16.0\nprint(a)\n",
+    "from math import sqrt as root\ndef a: Float := sqrt 16.0\nprint(a)\n",
+    "from typing import Optional as Opt\ndef f(x: Int?) -> Int => 1\nprint(f(None))\n",
+    "from typing import Optional\ndef f(x: Int?) -> Int => 1\nprint(f(None))\n",
+    "def f(x: Int?) -> Int => 1\nprint(f(None))\nfrom typing import Optional\n",
+    "from typing import Union\ndef f(x: Int?) -> Int => 1\ndef t: (Int, Str) := (1, \"a\")\nprint(f(None))\n",
+    "import abc as a\ntype Shape\n    def area(fin self) -> Int\nclass Sq(def s: Int): Shape\n    def area(fin self) -> Int => self.s\nprint(Sq(3).area())\n",
+    "from abc import ABC as Base\ntype Shape\n    def area(fin self) -> Int\nclass Sq(def s: Int): Shape\n    def area(fin self) -> Int => self.s\nprint(Sq(3).area())\n",
+    "import typing\ntype Small: Int when self < 10\ndef z: Int := 3\nprint(z)\n",
 ]
 
 
@@ -91,9 +104,23 @@ def run(chk):
                     chk.report_known(f, why)
                 elif len(chk.violations) < 5:
                     chk.violation("input", "annotate=%d: %s" % (a, why), case={"kind": "prog", "annotate": a, "text": t}, actual=py[:2500])
+    # the templates are also executed: a name the generator uses must be bound when it is used (the static analysis above is
+    # blind to the ORDER of bindings and to aliases chosen by the source)
+    jobs = [(t, a, r[a][1]) for t, r in list(zip(texts, res))[:len(TEMPLATES)] for a in (0, 1) if r[a][0] == "ok"]
+    outs = sweep.run_python_msg([j[2] for j in jobs])
+    n_exec = 0
+    for (t, a, py), (lines, outcome, message) in zip(jobs, outs):
+        n_exec += 1
+        if outcome.endswith(("NameError", "ImportError", "ModuleNotFoundError")) or ("is not defined" in message):
+            f = chk.known(t)
+            why = "annotate=%d: the emitted module fails on a name it should have imported: %s" % (a, message[:200])
+            if f:
+                chk.report_known(f, why)
+            elif len(chk.violations) < 5:
+                chk.violation("input", why, case={"kind": "prog", "annotate": a, "text": t}, actual=py[:2500])
     chk.sample({"calls": seqs[0], "collector": impl.get("s0")})
     chk.cov["oracle"] = {"spec": "every emitted module: no import twice, support imports before the first statement, unbound globals subset of the source's unbound names and builtins",
-                         "modules": n_mod, "with_imports": len(distinct), "templates": len(TEMPLATES)}
+                         "modules": n_mod, "with_imports": len(distinct), "templates": len(TEMPLATES), "templates_executed": n_exec}
     chk.cov["evaluations"] = len(ids) + n_mod
     chk.cov["distinct_nontrivial"] = len(distinct) + len(set(seqs))
     chk.cov["rule"] = "distinct call sequences on the collector + distinct emitted modules that carry at least one import (templates for sqrt/Optional/Union/Tuple/Any/ABC in top-level, function, class positions; generated programs; samples)"
